@@ -159,6 +159,10 @@ def run_history(args):
         if manifest_stamp(root) != stamp:
             key_toml = proj.effective_build(opts)
         clean = observe(clean_root, cmd, cache_home)
+        if proj.effective_build(opts) != proj.effective_build({}) or any("toml" in s_["edits"] for s_ in steps):
+            # after a [build] change the on-disk manifest's key can no longer be told from outside
+            # (the key hashes the binary); the restore-count prediction is only made before that
+            req = None
         steps.append({"edits": names, "cmd": cmd, "warm": warm, "clean": clean, "model_req": req, "nsrc": nsrc,
                       "files": dict(files), "opts": json.loads(json.dumps(opts))})
         shutil.rmtree(os.path.dirname(clean_root), ignore_errors=True)
@@ -226,7 +230,14 @@ def classify_rekey(steps, i):
     if last_change is None:
         return None
     # the first SUCCESSFUL command under the new options must be a `check` (it re-keys without emitting)
-    first_ok = next((j for j in range(last_change, i + 1) if steps[j]["warm"]["rc"] == 0), None)
+    def saves(j):
+        # `build` saves the manifest when it succeeds; `check` saves before failing on WARNINGS
+        # ("so a second check warms") and only an error aborts before the save
+        w_ = steps[j]["warm"]
+        if steps[j]["cmd"] == "check":
+            return not any(d_[0] == "Error" for d_ in w_["diags"]) and not w_["panic"]
+        return w_["rc"] == 0
+    first_ok = next((j for j in range(last_change, i + 1) if saves(j)), None)
     if first_ok is None or first_ok == i or steps[first_ok]["cmd"] != "check":
         return None
     # every differing output belongs to a source whose text never changed since before the option change
